@@ -12,7 +12,7 @@ def plan(tier):
     return {
         "harnesses": [ha, ht],
         "runs": [(ha, ["--tier", tier, "--deadline", dl], NCPU),
-                 (ht, ["--tier", tier, "--deadline", dl, "bound_delta=-1" if tier == "thorough" else "bound_delta=0"], NCPU)],
+                 (ht, ["--tier", tier, "--deadline", dl, "nostateful=1", "bound_delta=-1" if tier == "thorough" else "bound_delta=0"], NCPU)],
         "states_key": "schedules_at_top_bound", "transitions_key": "transitions", "traces_key": "executions",
         "distinct_key": "schedules_at_top_bound",
         "rule": "job-graph scenarios a) independent jobs b) job->child->grandchild c) second enqueuing thread d) job calls terminate() "
